@@ -5,6 +5,7 @@ package e2e
 import (
 	"fmt"
 	"os"
+	"sort"
 	"testing"
 
 	"pgregory.net/rapid"
@@ -30,6 +31,9 @@ func genRun(t *rapid.T, p pgen.Prog, seg, head uint64) runSpec {
 		}
 	}
 	out := rapid.SampledFrom(maps).Draw(t, "output")
+	if rapid.IntRange(0, 3).Draw(t, "lastmap") == 0 {
+		out = maps[len(maps)-1]
+	}
 	if len(storeMaps) > 0 && rapid.IntRange(0, 3).Draw(t, "storeoutput") > 0 {
 		out = rapid.SampledFrom(storeMaps).Draw(t, "outputstore")
 	}
@@ -91,9 +95,48 @@ func genC01(t *rapid.T) c01Case {
 		c.Prog = pgen.Gen(t, pgen.Opts{MinMods: 2, MaxMods: 7, InitialBlocks: inits, ForceStoreOutput: true})
 	}
 	n := rapid.SampledFrom([]int{1, 1, 2, 2, 3}).Draw(t, "nruns")
-	for i := 0; i < n; i++ {
-		c.Runs = append(c.Runs, genRun(t, c.Prog, c.Seg, c.Head))
+	last := genRun(t, c.Prog, c.Seg, c.Head)
+	for i := 0; i < n-1; i++ {
+		h := genRun(t, c.Prog, c.Seg, c.Head)
+		if rapid.IntRange(0, 2).Draw(t, "related") > 0 {
+			// an earlier request that leaves cached outputs the last one can use: an upstream mapper (or the same
+			// module) as output, production mode, an overlapping range
+			cands := []string{last.Output}
+			for a := range c.Prog.Graph.Ancestors(last.Output) {
+				if c.Prog.Mod(a).Kind == "map" {
+					cands = append(cands, a)
+				}
+			}
+			sort.Strings(cands)
+			h.Output = rapid.SampledFrom(cands).Draw(t, "histoutput")
+			h.Prod = rapid.IntRange(0, 4).Draw(t, "histprod") > 0
+			h.Start = last.Start
+			if init := c.Prog.Mod(h.Output).Initial; h.Start < init {
+				h.Start = init
+			}
+			if rapid.Bool().Draw(t, "histlower") && h.Start >= c.Seg && h.Start-c.Seg >= c.Prog.Mod(h.Output).Initial {
+				h.Start -= c.Seg
+			}
+			h.Stop = last.Stop
+			if h.Stop != 0 && rapid.Bool().Draw(t, "histlonger") {
+				h.Stop += rapid.Uint64Range(0, c.Seg).Draw(t, "histextra")
+				if h.Stop > c.Head {
+					h.Stop = c.Head
+				}
+			}
+			if h.Stop != 0 && h.Stop <= h.Start {
+				h.Stop = h.Start + 1
+			}
+			if h.Prod && h.Stop == 0 && h.Final == 0 {
+				h.Final = c.Head - 1
+			}
+			if h.Final != 0 && h.Final > c.Head {
+				h.Final = c.Head
+			}
+		}
+		c.Runs = append(c.Runs, h)
 	}
+	c.Runs = append(c.Runs, last)
 	return c
 }
 
